@@ -62,6 +62,22 @@ Definition new_id (t : tbl) (p : fobj) : tbl * Z * Z :=
        | Some i => (mkT (set_nth i (Some p) (slots t)) (numfiles t + 1) (nextuid t) (heap t), NC_NOERR, Z.of_nat i)
        | None => (t, NC_NOERR, -1)        (* loop ends without a free slot: err stays NC_NOERR, *new_id stays -1 *)
        end.
+(* A VARIANT that is NOT the code: the scan for a free slot starts at index pnc_numfiles ("the first pnc_numfiles
+   elements are normally all in use").  Proofs_Files.v refutes for it what holds of new_id: with a hole below
+   pnc_numfiles and no free slot above, it finds nothing and answers NC_NOERR with id -1. *)
+Fixpoint first_free_from (k : nat) (l : list (option fobj)) : option nat :=
+  match k, l with
+  | O, _ => first_free l
+  | S k', [] => None
+  | S k', _ :: r => option_map S (first_free_from k' r)
+  end.
+Definition new_id_from_numfiles (t : tbl) (p : fobj) : tbl * Z * Z :=
+  if numfiles t =? NC_MAX_NFILES then (t, NC_ENFILE, -1)
+  else match first_free_from (Z.to_nat (numfiles t)) (slots t) with
+       | Some i => (mkT (set_nth i (Some p) (slots t)) (numfiles t + 1) (nextuid t) (heap t), NC_NOERR, Z.of_nat i)
+       | None => (t, NC_NOERR, -1)
+       end.
+
 (* ---- del_from_PNCList ("validity of ncid should have been checked already") *)
 Definition del_id (t : tbl) (ncid : Z) : tbl :=
   mkT (set_nth (Z.to_nat ncid) None (slots t)) (numfiles t - 1) (nextuid t) (heap t).
